@@ -286,7 +286,7 @@ pub fn parse_token(t: &str) -> Option<(Vec<&'static str>, usize)> {
 
 /// number of opcodes a token list stands for
 pub fn token_ops(tokens: &[String]) -> usize {
-    tokens.iter().filter_map(|t| parse_token(t)).map(|(n, k)| n.len() * k).sum()
+    tokens.iter().filter(|t| *t != "+FRAME").filter_map(|t| parse_token(t)).map(|(n, k)| n.len() * k).sum()
 }
 
 /// Steering of long periodic programs: every token's unit is steered twice on the real generator
@@ -295,7 +295,11 @@ pub fn token_ops(tokens: &[String]) -> usize {
 /// resulting script is then verified in one run (the generator must emit exactly the intended
 /// opcode sequence), otherwise the recipe counts as not steerable.
 pub fn steer_tokens(p: u8, tokens: &[String]) -> Option<Vec<u8>> {
-    let mut script: Vec<u8> = if p >= 4 { vec![0] } else { vec![] };
+    // the pseudo-token "+FRAME" asks for the framed variant (protocols >= 4: the first script byte
+    // is the framing decision)
+    let framed = tokens.first().map(|t| t == "+FRAME").unwrap_or(false);
+    let tokens = if framed { &tokens[1..] } else { tokens };
+    let mut script: Vec<u8> = if p >= 4 { vec![u8::from(framed)] } else { vec![] };
     let mut done: Vec<u8> = vec![];
     let mut last_byte: HashMap<u8, u8> = HashMap::new();
     let mut steer_unit = |script: &mut Vec<u8>, done: &mut Vec<u8>, names: &[&'static str]| -> Option<Vec<u8>> {
